@@ -3,12 +3,20 @@ model, compare result, error class and device writes after every op."""
 from . import core
 from .core import ImplRun, ModelRun, ScriptedClock, clock_tuple, compare_writes, canon, MODEL_OPS
 
+VOLATILE_OPS = {"create", "makedir", "remove", "removedir", "removetree", "write", "truncate", "hclose", "open"}
+
 
 def run_program(image, ops, mount=None, model=None, on_step=None, stop_on_disagree=True):
     """returns dict(steps=[...], disagreement=None|{...}, impl=ImplRun)
     ops: list of op lists.  mount: dict(encoding, preserve_case, read_only, offset, lazy_load, utc)"""
     mount = dict(mount or {})
     enc = mount.get("encoding", "ibm437")
+    if (model is not None and getattr(model, "stub", False)) or (model is None and core.os.environ.get("VERIF_NO_MODEL")):
+        from . import history
+        case = history.Case("", image, ops, mount=mount)
+        r = history.run_impl_only(case, on_step)
+        r["model"] = None
+        return r
     ir = ImplRun(image, offset=mount.get("offset", 0), encoding=enc, preserve_case=mount.get("preserve_case", True),
                  utc=mount.get("utc", False), lazy_load=mount.get("lazy_load", True), read_only=mount.get("read_only", False))
     mr = ModelRun(image, encoding=enc, preserve_case=mount.get("preserve_case", True),
@@ -53,6 +61,13 @@ def run_program(image, ops, mount=None, model=None, on_step=None, stop_on_disagr
                     wd = compare_writes(iw, mw)
                     if wd:
                         d = {"at": i, "op": op, "writes": wd}
+                    elif op[0] in VOLATILE_OPS and ir.fs is not None and op[0] != "closefs":
+                        # the volatile state the next operations depend on: in-memory FAT and allocation hint
+                        ws, r = mr.m.cmd("fatsig")
+                        pf = ir.fs.fs
+                        sig = f"ok {pf.first_free_cluster} {len(pf.fat)} " + core.hashlib.md5(",".join(str(x) for x in pf.fat).encode()).hexdigest()
+                        if r != sig:
+                            d = {"at": i, "op": op, "volatile_fat_or_hint": {"impl": sig, "model": r}}
             out["steps"].append(step)
             if on_step:
                 on_step(i, op, ires, ir)
